@@ -37,6 +37,11 @@ type fakeS3 struct {
 	kinds   map[string]bool
 	fired   int // faults fired during the current invocation
 	latency bool
+	// bookkeeping for the audit: which invocation last wrote an object, and whether the
+	// harness removed remote objects (then only freshly written results are audited)
+	inv     int
+	putInv  map[string]int
+	lossy   bool
 }
 
 var errS3 = errors.New("fake s3: 503 service unavailable (injected)")
@@ -123,6 +128,10 @@ func (f *fakeS3) PutObject(ctx context.Context, bucket, key string, body io.Read
 	}
 	f.mu.Lock()
 	f.objects[bucket+"/"+key] = data
+	if f.putInv == nil {
+		f.putInv = map[string]int{}
+	}
+	f.putInv[bucket+"/"+key] = f.inv
 	f.mu.Unlock()
 	if f.fault("remote-put-applied-error") {
 		simrt.Probe("remote-put-applied-but-error")
@@ -178,6 +187,9 @@ func (w *wbuild) auditRemote(f *fakeS3, when string) {
 		return ok
 	}
 	for _, k := range keys {
+		if f.lossy && strings.Contains(k, "/target/") && f.putInv[k] != f.inv {
+			continue // objects were removed behind grog's back: only results written by this build must be complete
+		}
 		if !strings.Contains(k, "/target/") {
 			if i := strings.LastIndex(k, "/cas/"); i >= 0 {
 				if got := hashing.HashBytes(f.objects[k]); got != k[i+5:] {
@@ -286,6 +298,7 @@ func (w *wbuild) driveRemote(s *simrt.Sched, out *RunResult, u *Universe, cs *wb
 		}
 		w.dirInWay = map[string]bool{}
 		f.fired = 0
+		f.inv++
 		if opts.Remote {
 			// read-through: whatever the remote certainly holds is available to this machine
 			for k := range remote.strict {
@@ -343,6 +356,9 @@ func (w *wbuild) driveRemote(s *simrt.Sched, out *RunResult, u *Universe, cs *wb
 		w.auditCacheWith(m.Machine, fmt.Sprintf("local cache of %s after invocation %d", m.Name, res.N), func(d string) bool {
 			f.mu.Lock()
 			defer f.mu.Unlock()
+			if f.lossy {
+				return true // the harness removed remote blobs: dangling references are expected
+			}
 			for k := range f.objects {
 				if strings.HasSuffix(k, "/cas/"+d) {
 					return true
@@ -391,7 +407,43 @@ func (w *wbuild) driveRemote(s *simrt.Sched, out *RunResult, u *Universe, cs *wb
 	activate(A)
 	firstWithoutRemote := c.Choose(3, "a-starts-without-remote") == 0
 	for i := 0; i < nops && len(s.Violations) == 0; i++ {
-		switch pick(c, "op", "build-a", "edit", "build-b", "build-a", "edit", "build-b", "wipe-outputs") {
+		switch pick(c, "op", "build-a", "edit", "build-b", "build-a", "edit", "build-b", "wipe-outputs", "remote-loses-blob") {
+		case "remote-loses-blob":
+			// the remote store loses a blob (lifecycle rule, manual cleanup): results that
+			// reference it degrade to a miss; whoever re-executes must upload it again
+			f.mu.Lock()
+			var blobs []string
+			for k := range f.objects {
+				if strings.Contains(k, "/cas/") {
+					blobs = append(blobs, k)
+				}
+			}
+			sort.Strings(blobs)
+			note := "nothing to lose"
+			if len(blobs) > 0 {
+				k := blobs[c.Choose(len(blobs), "lost-blob")]
+				delete(f.objects, k)
+				f.lossy = true
+				note = k
+				simrt.Fault("remote-missing-object")
+			}
+			f.mu.Unlock()
+			// nothing the remote model knows is certain any more
+			for k := range remote.strict {
+				remote.unc[k] = true
+			}
+			for _, mm := range []*remoteMachine{A, B} {
+				for k := range mm.cm.strict {
+					mm.cm.unc[k] = true
+				}
+			}
+			cs.History = append(cs.History, HistOp{Op: "remote-loses-blob", Note: note})
+			if i%2 == 0 {
+				// and the next builder starts from a fresh checkout
+				for _, l := range w.U.Labels() {
+					removeOutputs(ws, w.U.Specs[l])
+				}
+			}
 		case "edit":
 			snapshots = append(snapshots, w.U.Clone())
 			nu, ed := genEdit(c, w.U, w.g, snapshots)
